@@ -924,3 +924,25 @@ def v5b_univariate_genf_refuses_statistics(ctx) -> None:
                                   "must be refused with NotImplementedError first (the equations of a specification with statistics would silently lose them)")
     if n < 3:
         ctx.floor("V5", 99)
+
+
+def v12_initial_conditions_bound(ctx) -> None:
+    """get_initial_conditions(check) compares `check + 1` coefficients; both ways of getting
+    them -- from the counts, and by generating objects of the root -- use that `check`."""
+    P = ctx.P
+    m = P.need_method("CombinatorialSpecification", "get_initial_conditions", own=True)
+    f = m.node
+    ctx.analysed(m)
+    ps = [p for p in m.params() if p != "self"]
+    if not ps:
+        raise AnalysisError("V12: get_initial_conditions(check) expected")
+    chk = ps[0]
+    rets = [r for r in C.returns_of(f) if r.value is not None]
+    if len(rets) < 2:
+        raise AnalysisError("V12: get_initial_conditions no longer has its two providers")
+    for r in rets:
+        if any(isinstance(x, ast.Name) and x.id == chk for x in ast.walk(D.expanded(f, r.value))):
+            ctx.ok("V12", f"`{norm(r.value)[:50]}` is computed for the requested number of coefficients")
+        else:
+            ctx.violation("V12", r, f"`{norm(r.value)[:60]}` does not depend on `{chk}`: this provider hands back its default number of coefficients whatever was asked for, and the "
+                          "comparison with the series expansion (zip / ==) is made against a list of another length")
